@@ -17,7 +17,7 @@ type Val struct {
 	S     string
 }
 
-func Int(i int64) Val { return Val{IsInt: true, I: i} }
+func Int(i int64) Val   { return Val{IsInt: true, I: i} }
 func Text(s string) Val { return Val{S: s} }
 
 var NullVal = Val{Null: true}
@@ -32,7 +32,19 @@ type DB struct {
 	Rows     []*Row
 	snapshot []*Row
 	inTx     bool
+	seq      int // randomblob() counter
 }
+
+// ErrConstraint is what a UNIQUE/PRIMARY KEY violation returns (the real driver returns a *sqlite.Error with code 19).
+var ErrConstraint = errors.New("verifsql: UNIQUE constraint failed: queue_items.id")
+
+// rel is a materialised relation (CTE, subquery or statement result).
+type rel struct {
+	cols []string
+	rows [][]Val
+}
+
+var counterColumns = []string{"id", "queued", "leased"}
 
 // Current is the database behind the stubbed *sql.DB of the harness.
 var Current *DB
@@ -106,8 +118,9 @@ func lex(q string) []tok {
 // ---------------------------------------------------------------- expressions
 
 type expr struct {
-	op   string // "col", "param", "int", "str", "null", "and", "or", "not", cmp ops, "isnull", "notnull", "+", "-", "in"
+	op   string // "col", "param", "int", "str", "null", "const", "fresh", "and", "or", "not", cmp ops, "isnull", "notnull", "+", "-", "||", "in"
 	name string
+	v    Val
 	n    int64
 	idx  int
 	a, b *expr
@@ -119,6 +132,19 @@ type parser struct {
 	i      int
 	params int
 	err    error
+	db     *DB
+	vals   []Val
+	cols   []string // columns of the relation the expression under parse ranges over
+	ctes   map[string]*rel
+}
+
+func (p *parser) col(name string) int {
+	for i, c := range p.cols {
+		if c == name {
+			return i
+		}
+	}
+	return -1
 }
 
 func (p *parser) peek() tok { return p.t[p.i] }
@@ -184,6 +210,18 @@ func (p *parser) parseCmp() *expr {
 				p.fail("expected (")
 			}
 			in := &expr{op: "in", a: e}
+			if p.peek().k == "id" && p.peek().s == "select" {
+				// uncorrelated list subquery, evaluated now (before the statement changes anything)
+				sub := p.parseSelect()
+				for _, r := range sub.rows {
+					in.list = append(in.list, &expr{op: "const", v: r[0]})
+				}
+				if !p.punct(")") {
+					p.fail("expected )")
+				}
+				e = in
+				continue
+			}
 			for {
 				in.list = append(in.list, p.parseAdd())
 				if !p.punct(",") {
@@ -204,7 +242,7 @@ func (p *parser) parseCmp() *expr {
 }
 func (p *parser) parseAdd() *expr {
 	e := p.parsePrimary()
-	for p.peek().k == "p" && (p.peek().s == "+" || p.peek().s == "-") {
+	for p.peek().k == "p" && (p.peek().s == "+" || p.peek().s == "-" || p.peek().s == "||") {
 		op := p.next().s
 		e = &expr{op: op, a: e, b: p.parsePrimary()}
 	}
@@ -229,12 +267,44 @@ func (p *parser) parsePrimary() *expr {
 		if t.s == "null" {
 			return &expr{op: "null"}
 		}
-		if colIndex(t.s) < 0 {
-			p.fail("unknown column " + t.s)
+		if p.punct("(") {
+			// functions: lower/hex are the identity on the model's opaque tokens; randomblob yields a fresh token per evaluation
+			arg := p.parseAdd()
+			if !p.punct(")") {
+				p.fail("expected )")
+			}
+			switch t.s {
+			case "lower", "hex":
+				return arg
+			case "randomblob":
+				return &expr{op: "fresh"}
+			}
+			p.fail("unknown function " + t.s)
+			return &expr{op: "null"}
 		}
-		return &expr{op: "col", name: t.s, idx: colIndex(t.s)}
+		if p.col(t.s) < 0 {
+			p.fail("unknown column " + t.s)
+			return &expr{op: "null"}
+		}
+		return &expr{op: "col", name: t.s, idx: p.col(t.s)}
 	case "p":
+		if t.s == "-" && p.peek().k == "num" {
+			e := p.parsePrimary()
+			e.n = -e.n
+			return e
+		}
 		if t.s == "(" {
+			if p.peek().k == "id" && p.peek().s == "select" {
+				// uncorrelated scalar subquery, evaluated now: first column of the first row, or NULL
+				sub := p.parseSelect()
+				if !p.punct(")") {
+					p.fail("expected )")
+				}
+				if len(sub.rows) == 0 {
+					return &expr{op: "null"}
+				}
+				return &expr{op: "const", v: sub.rows[0][0]}
+			}
 			e := p.parseOr()
 			if !p.punct(")") {
 				p.fail("expected )")
@@ -244,6 +314,18 @@ func (p *parser) parsePrimary() *expr {
 	}
 	p.fail("unexpected token")
 	return &expr{op: "null"}
+}
+
+func itoa(n int) string {
+	if n == 0 {
+		return "0"
+	}
+	s := ""
+	for n > 0 {
+		s = string(rune('0'+n%10)) + s
+		n /= 10
+	}
+	return s
 }
 
 func truth(v Val) bool { return !v.Null && v.IsInt && v.I != 0 }
@@ -284,10 +366,21 @@ func cmp(op string, a, b Val) Val {
 	return NullVal
 }
 
-func (e *expr) eval(r *Row, args []Val) Val {
+func (e *expr) eval(r []Val, args []Val) Val {
 	switch e.op {
 	case "col":
-		return r.V[e.idx]
+		return r[e.idx]
+	case "const":
+		return e.v
+	case "fresh":
+		Current.seq++
+		return Text("rb" + itoa(Current.seq))
+	case "||":
+		a, b := e.a.eval(r, args), e.b.eval(r, args)
+		if a.Null || b.Null {
+			return NullVal
+		}
+		return Text(a.S + b.S)
 	case "param":
 		return args[e.idx]
 	case "int":
@@ -372,14 +465,259 @@ func toVals(args []any) ([]Val, error) {
 	return out, nil
 }
 
-// Exec runs a data-modifying statement and returns the number of affected rows.
-func Exec(query string, args []any) (int64, error) {
+// source returns the rows of a named relation. Rows of queue_items are the live rows (updates write through).
+func (p *parser) source(name string) ([]string, [][]Val, bool) {
+	if r, ok := p.ctes[name]; ok {
+		return r.cols, r.rows, true
+	}
+	switch name {
+	case "queue_items":
+		rows := make([][]Val, len(p.db.Rows))
+		for i, r := range p.db.Rows {
+			rows[i] = r.V
+		}
+		return Columns, rows, true
+	case "queue_counters":
+		// the single counter row the schema's triggers maintain: queued / leased = number of rows in that state
+		q, l := int64(0), int64(0)
+		st := colIndex("state")
+		for _, r := range p.db.Rows {
+			if r.V[st].S == "queued" {
+				q++
+			}
+			if r.V[st].S == "leased" {
+				l++
+			}
+		}
+		return counterColumns, [][]Val{{Int(1), Int(q), Int(l)}}, true
+	}
+	return nil, nil, false
+}
+
+// intOperand: a LIMIT/OFFSET operand (number, -1, or parameter).
+func (p *parser) intOperand() int64 {
+	v := p.parsePrimary().eval(nil, p.vals)
+	return v.I
+}
+
+// parseSelect parses AND evaluates
+//
+//	SELECT item {, item} FROM rel [WHERE e] [ORDER BY col [ASC|DESC] {, ...}] [LIMIT n [OFFSET m]]
+//
+// with item = column | COUNT(*). The leading SELECT keyword is consumed here.
+func (p *parser) parseSelect() *rel {
+	out := &rel{}
+	if !p.kw("select") {
+		p.fail("expected SELECT")
+		return out
+	}
+	type item struct {
+		name  string
+		count bool
+	}
+	var items []item
+	for {
+		c := p.next()
+		if c.k != "id" {
+			p.fail("bad select item")
+			return out
+		}
+		if c.s == "count" {
+			if !p.punct("(") || !p.punct("*") || !p.punct(")") {
+				p.fail("only COUNT(*) is modelled")
+				return out
+			}
+			items = append(items, item{count: true})
+		} else {
+			items = append(items, item{name: c.s})
+		}
+		if !p.punct(",") {
+			break
+		}
+	}
+	if !p.kw("from") {
+		p.fail("expected FROM")
+		return out
+	}
+	cols, rows, ok := p.source(p.next().s)
+	if !ok {
+		p.fail("unknown relation")
+		return out
+	}
+	saved := p.cols
+	p.cols = cols
+	defer func() { p.cols = saved }()
+	var where *expr
+	if p.kw("where") {
+		where = p.parseOr()
+	}
+	type key struct {
+		idx  int
+		desc bool
+	}
+	var keys []key
+	if p.kw("order") {
+		if !p.kw("by") {
+			p.fail("expected BY")
+		}
+		for {
+			c := p.next()
+			if c.k != "id" || p.col(c.s) < 0 {
+				p.fail("bad ORDER BY column")
+				return out
+			}
+			k := key{idx: p.col(c.s)}
+			if p.kw("desc") {
+				k.desc = true
+			} else {
+				p.kw("asc")
+			}
+			keys = append(keys, k)
+			if !p.punct(",") {
+				break
+			}
+		}
+	}
+	limit, offset := int64(-1), int64(0)
+	if p.kw("limit") {
+		limit = p.intOperand()
+		if p.kw("offset") {
+			offset = p.intOperand()
+		}
+	}
+	if p.err != nil {
+		return out
+	}
+	var sel [][]Val
+	for _, r := range rows {
+		if where == nil || truth(where.eval(r, p.vals)) {
+			sel = append(sel, r)
+		}
+	}
+	// insertion sort; rows that tie on every key come out in table (rowid) order for an ascending first key and in
+	// reverse table order for a descending one — what SQLite's forward/backward index scans produce for these
+	// queries (SQL itself leaves the order of ties open; the native differential validation pins this choice)
+	if len(keys) > 0 {
+		if keys[0].desc {
+			for i, j := 0, len(sel)-1; i < j; i, j = i+1, j-1 {
+				sel[i], sel[j] = sel[j], sel[i]
+			}
+		}
+		less := func(a, b []Val) bool {
+			for _, k := range keys {
+				x, y := a[k.idx], b[k.idx]
+				if k.desc {
+					x, y = y, x
+				}
+				if truth(cmp("<", x, y)) {
+					return true
+				}
+				if truth(cmp("<", y, x)) {
+					return false
+				}
+			}
+			return false
+		}
+		for i := 1; i < len(sel); i++ {
+			for j := i; j > 0 && less(sel[j], sel[j-1]); j-- {
+				sel[j], sel[j-1] = sel[j-1], sel[j]
+			}
+		}
+	}
+	for _, it := range items {
+		if it.count {
+			out.cols = append(out.cols, "count")
+		} else {
+			out.cols = append(out.cols, it.name)
+		}
+	}
+	if len(items) == 1 && items[0].count {
+		out.rows = [][]Val{{Int(int64(len(sel)))}}
+		return out
+	}
+	idx := make([]int, len(items))
+	for i, it := range items {
+		idx[i] = p.col(it.name)
+		if it.count || idx[i] < 0 {
+			p.fail("bad select column " + it.name)
+			return out
+		}
+	}
+	for n, r := range sel {
+		if int64(n) < offset {
+			continue
+		}
+		if limit >= 0 && int64(len(out.rows)) >= limit {
+			break
+		}
+		row := make([]Val, len(idx))
+		for i, c := range idx {
+			row[i] = r[c]
+		}
+		out.rows = append(out.rows, row)
+	}
+	return out
+}
+
+func (p *parser) returning() ([]int, []string, bool) {
+	if !p.kw("returning") {
+		return nil, nil, false
+	}
+	var idx []int
+	var names []string
+	for {
+		c := p.next()
+		if c.k != "id" || colIndex(c.s) < 0 {
+			p.fail("bad RETURNING column")
+			return nil, nil, true
+		}
+		idx = append(idx, colIndex(c.s))
+		names = append(names, c.s)
+		if !p.punct(",") {
+			break
+		}
+	}
+	return idx, names, true
+}
+
+func (p *parser) end(what string) error {
+	p.punct(";")
+	if p.err != nil {
+		return p.err
+	}
+	if p.peek().k != "eof" {
+		return errors.New("verifsql: unsupported " + what + " tail near " + p.peek().s)
+	}
+	return nil
+}
+
+// Run executes one statement: result rows (SELECT, RETURNING), their arity, and the number of affected rows.
+func Run(query string, args []any) (rows [][]Val, ncols int, affected int64, err error) {
 	db := Current
 	vals, err := toVals(args)
 	if err != nil {
-		return 0, err
+		return nil, 0, 0, err
 	}
-	p := &parser{t: lex(query)}
+	p := &parser{t: lex(query), db: db, vals: vals, ctes: map[string]*rel{}, cols: Columns}
+	for p.kw("with") {
+		for {
+			name := p.next()
+			if name.k != "id" || !p.kw("as") || !p.punct("(") {
+				return nil, 0, 0, errors.New("verifsql: unsupported WITH")
+			}
+			r := p.parseSelect()
+			if !p.punct(")") {
+				p.fail("expected ) after CTE")
+			}
+			if p.err != nil {
+				return nil, 0, 0, p.err
+			}
+			p.ctes[name.s] = r
+			if !p.punct(",") {
+				break
+			}
+		}
+	}
 	switch {
 	case p.kw("begin"):
 		db.snapshot = nil
@@ -387,18 +725,24 @@ func Exec(query string, args []any) (int64, error) {
 			db.snapshot = append(db.snapshot, r.clone())
 		}
 		db.inTx = true
-		return 0, nil
+		return nil, 0, 0, nil
 	case p.kw("commit"):
 		db.inTx, db.snapshot = false, nil
-		return 0, nil
+		return nil, 0, 0, nil
 	case p.kw("rollback"):
 		if db.inTx {
 			db.Rows, db.snapshot, db.inTx = db.snapshot, nil, false
 		}
-		return 0, nil
+		return nil, 0, 0, nil
+	case p.peek().k == "id" && p.peek().s == "select":
+		r := p.parseSelect()
+		if err := p.end("SELECT"); err != nil {
+			return nil, 0, 0, err
+		}
+		return r.rows, len(r.cols), 0, nil
 	case p.kw("update"):
 		if !p.kw("queue_items") || !p.kw("set") {
-			return 0, errors.New("verifsql: unsupported UPDATE")
+			return nil, 0, 0, errors.New("verifsql: unsupported UPDATE")
 		}
 		type asg struct {
 			col int
@@ -408,7 +752,7 @@ func Exec(query string, args []any) (int64, error) {
 		for {
 			c := p.next()
 			if c.k != "id" || colIndex(c.s) < 0 || !p.punct("=") {
-				return 0, errors.New("verifsql: bad SET")
+				return nil, 0, 0, errors.New("verifsql: bad SET")
 			}
 			sets = append(sets, asg{colIndex(c.s), p.parseAdd()})
 			if !p.punct(",") {
@@ -419,158 +763,126 @@ func Exec(query string, args []any) (int64, error) {
 		if p.kw("where") {
 			where = p.parseOr()
 		}
-		p.punct(";")
-		if p.err != nil || p.peek().k != "eof" {
-			return 0, errors.New("verifsql: unsupported UPDATE tail")
+		ret, names, _ := p.returning()
+		if err := p.end("UPDATE"); err != nil {
+			return nil, 0, 0, err
 		}
 		n := int64(0)
 		for _, r := range db.Rows {
-			if where != nil && !truth(where.eval(r, vals)) {
+			if where != nil && !truth(where.eval(r.V, vals)) {
 				continue
 			}
 			nv := make([]Val, len(sets))
 			for i, s := range sets {
-				nv[i] = s.e.eval(r, vals) // all right-hand sides see the old row
+				nv[i] = s.e.eval(r.V, vals) // all right-hand sides see the old row
 			}
 			for i, s := range sets {
 				r.V[s.col] = nv[i]
 			}
 			n++
+			if ret != nil {
+				row := make([]Val, len(ret))
+				for i, c := range ret {
+					row[i] = r.V[c]
+				}
+				rows = append(rows, row)
+			}
 		}
-		return n, nil
+		return rows, len(names), n, nil
 	case p.kw("delete"):
 		if !p.kw("from") || !p.kw("queue_items") {
-			return 0, errors.New("verifsql: unsupported DELETE")
+			return nil, 0, 0, errors.New("verifsql: unsupported DELETE")
 		}
 		var where *expr
 		if p.kw("where") {
 			where = p.parseOr()
 		}
-		p.punct(";")
-		if p.err != nil || p.peek().k != "eof" {
-			return 0, errors.New("verifsql: unsupported DELETE tail")
+		if err := p.end("DELETE"); err != nil {
+			return nil, 0, 0, err
 		}
 		var keep []*Row
 		n := int64(0)
 		for _, r := range db.Rows {
-			if where == nil || truth(where.eval(r, vals)) {
+			if where == nil || truth(where.eval(r.V, vals)) {
 				n++
 				continue
 			}
 			keep = append(keep, r)
 		}
 		db.Rows = keep
-		return n, nil
+		return nil, 0, n, nil
+	case p.kw("insert"):
+		if !p.kw("into") || !p.kw("queue_items") || !p.punct("(") {
+			return nil, 0, 0, errors.New("verifsql: unsupported INSERT")
+		}
+		var cols []int
+		for {
+			c := p.next()
+			if c.k != "id" || colIndex(c.s) < 0 {
+				return nil, 0, 0, errors.New("verifsql: bad INSERT column")
+			}
+			cols = append(cols, colIndex(c.s))
+			if !p.punct(",") {
+				break
+			}
+		}
+		if !p.punct(")") || !p.kw("values") || !p.punct("(") {
+			return nil, 0, 0, errors.New("verifsql: unsupported INSERT")
+		}
+		row := &Row{V: make([]Val, len(Columns))}
+		for i := range row.V {
+			row.V[i] = NullVal
+		}
+		for i := 0; ; i++ {
+			e := p.parseAdd()
+			if i >= len(cols) {
+				return nil, 0, 0, errors.New("verifsql: more values than columns")
+			}
+			row.V[cols[i]] = e.eval(row.V, vals)
+			if !p.punct(",") {
+				if i != len(cols)-1 {
+					return nil, 0, 0, errors.New("verifsql: fewer values than columns")
+				}
+				break
+			}
+		}
+		if !p.punct(")") {
+			p.fail("expected )")
+		}
+		if err := p.end("INSERT"); err != nil {
+			return nil, 0, 0, err
+		}
+		id := colIndex("id")
+		for _, r := range db.Rows {
+			if r.V[id].S == row.V[id].S {
+				return nil, 0, 0, ErrConstraint
+			}
+		}
+		db.Rows = append(db.Rows, row)
+		return nil, 0, 1, nil
 	}
-	return 0, errors.New("verifsql: unsupported statement")
+	return nil, 0, 0, errors.New("verifsql: unsupported statement")
 }
 
-// QueryRow runs "SELECT cols FROM queue_items WHERE ... [LIMIT 1]" and returns the first row's values.
+// Exec runs a data-modifying statement and returns the number of affected rows.
+func Exec(query string, args []any) (int64, error) {
+	_, _, n, err := Run(query, args)
+	return n, err
+}
+
+// QueryRow returns the first result row of a SELECT or ... RETURNING statement.
 func QueryRow(query string, args []any) ([]Val, bool, error) {
-	db := Current
-	vals, err := toVals(args)
-	if err != nil {
+	rows, _, _, err := Run(query, args)
+	if err != nil || len(rows) == 0 {
 		return nil, false, err
 	}
-	p := &parser{t: lex(query)}
-	if !p.kw("select") {
-		return nil, false, errors.New("verifsql: unsupported query")
-	}
-	var cols []int
-	for {
-		c := p.next()
-		if c.k != "id" || colIndex(c.s) < 0 {
-			return nil, false, errors.New("verifsql: bad column")
-		}
-		cols = append(cols, colIndex(c.s))
-		if !p.punct(",") {
-			break
-		}
-	}
-	if !p.kw("from") || !p.kw("queue_items") {
-		return nil, false, errors.New("verifsql: unsupported FROM")
-	}
-	var where *expr
-	if p.kw("where") {
-		where = p.parseOr()
-	}
-	if p.kw("limit") {
-		p.next()
-	}
-	p.punct(";")
-	if p.err != nil || p.peek().k != "eof" {
-		return nil, false, errors.New("verifsql: unsupported SELECT tail")
-	}
-	for _, r := range db.Rows {
-		if where == nil || truth(where.eval(r, vals)) {
-			out := make([]Val, len(cols))
-			for i, c := range cols {
-				out[i] = r.V[c]
-			}
-			return out, true, nil
-		}
-	}
-	return nil, false, nil
+	return rows[0], true, nil
 }
 
-// Query runs "SELECT cols FROM queue_items [WHERE ...] [LIMIT n]" and returns every matching row in table order.
+// Query returns every result row.
 func Query(query string, args []any) ([][]Val, error) {
-	db := Current
-	vals, err := toVals(args)
-	if err != nil {
-		return nil, err
-	}
-	p := &parser{t: lex(query)}
-	if !p.kw("select") {
-		return nil, errors.New("verifsql: unsupported query")
-	}
-	var cols []int
-	for {
-		c := p.next()
-		if c.k != "id" || colIndex(c.s) < 0 {
-			return nil, errors.New("verifsql: bad column")
-		}
-		cols = append(cols, colIndex(c.s))
-		if !p.punct(",") {
-			break
-		}
-	}
-	if !p.kw("from") || !p.kw("queue_items") {
-		return nil, errors.New("verifsql: unsupported FROM")
-	}
-	var where *expr
-	if p.kw("where") {
-		where = p.parseOr()
-	}
-	limit := int64(-1)
-	if p.kw("limit") {
-		l := p.next()
-		if l.k != "num" {
-			return nil, errors.New("verifsql: unsupported LIMIT")
-		}
-		limit = 0
-		for _, c := range l.s {
-			limit = limit*10 + int64(c-'0')
-		}
-	}
-	p.punct(";")
-	if p.err != nil || p.peek().k != "eof" {
-		return nil, errors.New("verifsql: unsupported SELECT tail")
-	}
-	var out [][]Val
-	for _, r := range db.Rows {
-		if limit >= 0 && int64(len(out)) >= limit {
-			break
-		}
-		if where == nil || truth(where.eval(r, vals)) {
-			row := make([]Val, len(cols))
-			for i, c := range cols {
-				row[i] = r.V[c]
-			}
-			out = append(out, row)
-		}
-	}
-	return out, nil
+	rows, _, _, err := Run(query, args)
+	return rows, err
 }
 
 // ScanInto assigns SQL values to database/sql scan destinations.
@@ -586,9 +898,21 @@ func ScanInto(dest []any, vals []Val) error {
 				return errors.New("verifsql: NULL into *string")
 			}
 			*d = v.S
+		case *[]byte:
+			if v.Null {
+				*d = nil
+			} else {
+				*d = []byte(v.S)
+			}
 		case *int:
+			if v.Null {
+				return errors.New("verifsql: NULL into *int")
+			}
 			*d = int(v.I)
 		case *int64:
+			if v.Null {
+				return errors.New("verifsql: NULL into *int64")
+			}
 			*d = v.I
 		case *sql.NullInt64:
 			d.Int64, d.Valid = v.I, !v.Null
@@ -599,24 +923,4 @@ func ScanInto(dest []any, vals []Val) error {
 		}
 	}
 	return nil
-}
-
-// SelectArity returns the number of columns in the select list of a supported SELECT.
-func SelectArity(query string) (int, error) {
-	p := &parser{t: lex(query)}
-	if !p.kw("select") {
-		return 0, errors.New("verifsql: unsupported query")
-	}
-	n := 0
-	for {
-		c := p.next()
-		if c.k != "id" {
-			return 0, errors.New("verifsql: bad column")
-		}
-		n++
-		if !p.punct(",") {
-			break
-		}
-	}
-	return n, nil
 }
